@@ -109,8 +109,8 @@ silent('c03-copy-via-type-self', 'C03', DTY,
        "        return ArrayOf(self.members.copy(), self.minlen, self.maxlen)",
        "        return type(self)(self.members.copy(), self.minlen, self.maxlen)")
 silent('c03-lambda-params-reordered', 'C03', DTY,
-       "    'string': lambda minchars=0, maxchars=None, isUTF8=False, **kwds:",
-       "    'string': lambda isUTF8=False, maxchars=None, minchars=0, **kwds:")
+       "    'string': lambda minchars=0, maxchars=UNLIMITED, isUTF8=False, **kwds:",
+       "    'string': lambda isUTF8=False, maxchars=UNLIMITED, minchars=0, **kwds:")
 firing('c03-scaled-compatible-fallthrough', 'C03', DTY,
        "    def compatible(self, other):\n        if isinstance(other, (IntRange, FloatRange, ScaledInteger)):\n            other.validate(self.min)\n            other.validate(self.max)\n            return\n",
        "    def compatible(self, other):\n        if isinstance(other, (IntRange, FloatRange, ScaledInteger)):\n            other.validate(self.min)\n            other.validate(self.max)\n",
